@@ -1,409 +1,15 @@
 package main
 
-// Walker.RunG4 - a copy of Walker.Run (ssax.go) with ONE extension, marked
-// "G4:" below (engine change request: fold it into Run and delete this file).
-//
-// Run remembers, along a path, which value an inlined new helper returned, but
-// only for helpers with a single result; the caller's `if helper(..)` is then
-// the test of that value. Go helpers extracted from a handler typically return
-// (value, ok) or (value, error). RunG4 remembers EVERY result of the return
-// that was taken (looking through the result slots of functions with defers,
-// retVal), and resolves
-//   - a condition that is result #i of an inlined helper call (`v, ok := h(); if !ok`),
-//   - a comparison of such a result with nil / a constant when the returned
-//     value is itself a constant (`v, err := h(); if err != nil` on the path
-//     where h returned `x, nil`),
-// so the infeasible combinations "h returned false, caller saw true" are not
-// walked. Everything else is Run, unchanged.
+// RunG4 was a copy of Walker.Run extended to remember every result of an
+// inlined helper (tuples, result slots); the extension now lives in Walker.Run
+// (ssax.go) and RunG4 is kept as a name.
 
 import (
-	"fmt"
-	"go/constant"
-	"go/token"
-	"strings"
-
 	"golang.org/x/tools/go/ssa"
 )
 
 // RunG4: see the file comment.
-func (w *Walker) RunG4(start Point) *Witness {
-	type item struct {
-		st     wstate
-		parent int
-		lit    *Lit
-	}
-	var items []item
-	seen := map[wstate]bool{}
-	push := func(b *ssa.BasicBlock, pred, from, parent int, lit *Lit, env string, fr *wframe) {
-		st := wstate{b, pred, from, env, fr}
-		if seen[st] {
-			return
-		}
-		seen[st] = true
-		items = append(items, item{st, parent, lit})
-	}
-	type frameKey struct {
-		call   *ssa.Call
-		parent *wframe
-	}
-	frames := map[frameKey]*wframe{}
-	enter := func(call *ssa.Call, parent *wframe) *wframe {
-		k := frameKey{call, parent}
-		if f := frames[k]; f != nil {
-			return f
-		}
-		d := 1
-		if parent != nil {
-			d = parent.depth + 1
-		}
-		f := &wframe{call, parent, d, (parent == nil || parent.tail) && helperIdx[call.Call.StaticCallee()].tail}
-		frames[k] = f
-		return f
-	}
-	inFrames := func(fr *wframe, h *ssa.Function) bool {
-		for ; fr != nil; fr = fr.parent {
-			if fr.call.Call.StaticCallee() == h {
-				return true
-			}
-		}
-		return false
-	}
-	// descriptions inside a frame are made for the frame's call site
-	savedBind := descBind
-	defer func() { descBind = savedBind }()
-	bind := func(fr *wframe) {
-		descBind = map[*ssa.Function]*ssa.Call{}
-		for k, v := range savedBind {
-			descBind[k] = v
-		}
-		for f := fr; f != nil; f = f.parent {
-			if h := f.call.Call.StaticCallee(); descBind[h] == nil || f == fr {
-				descBind[h] = f.call
-			}
-		}
-	}
-	// results of inlined helper calls, remembered along the path (tag \x03)
-	callNo := map[*ssa.Call]int{}
-	var vals []ssa.Value
-	valNo := map[ssa.Value]int{}
-	record := func(env string, call *ssa.Call, idx int, v ssa.Value) string { // G4: per result index
-		ci, ok := callNo[call]
-		if !ok {
-			ci = len(callNo)
-			callNo[call] = ci
-		}
-		vi, ok := valNo[v]
-		if !ok {
-			vi = len(vals)
-			vals = append(vals, v)
-			valNo[v] = vi
-		}
-		pre := fmt.Sprintf("\x03c%d.%d=", ci, idx)
-		if i := strings.Index(env, pre); i >= 0 {
-			j := strings.Index(env[i:], "\x02")
-			env = env[:i] + env[i+j+1:]
-		}
-		return env + pre + fmt.Sprint(vi) + "\x02"
-	}
-	lookup := func(env string, call *ssa.Call, idx int) ssa.Value { // G4: per result index
-		ci, ok := callNo[call]
-		if !ok {
-			return nil
-		}
-		pre := fmt.Sprintf("\x03c%d.%d=", ci, idx)
-		i := strings.Index(env, pre)
-		if i < 0 {
-			return nil
-		}
-		rest := env[i+len(pre):]
-		j := strings.Index(rest, "\x02")
-		vi := 0
-		fmt.Sscan(rest[:j], &vi)
-		if vi < len(vals) {
-			return vals[vi]
-		}
-		return nil
-	}
-	push(start.B, -1, start.I, -1, nil, "", nil)
-	mkWitness := func(idx int, hit ssa.Instruction, extra *Lit) *Witness {
-		wt := &Witness{Hit: hit}
-		for i := idx; i >= 0; i = items[i].parent {
-			wt.Blocks = append([]*ssa.BasicBlock{items[i].st.b}, wt.Blocks...)
-			if items[i].lit != nil {
-				wt.Lits = append([]Lit{*items[i].lit}, wt.Lits...)
-			}
-		}
-		if extra != nil {
-			wt.Lits = append(wt.Lits, *extra)
-		}
-		return wt
-	}
-	// edgeEnv applies the contradiction pruning for literal l of condition cond;
-	// ok=false when the edge contradicts an earlier test on this path.
-	edgeEnv := func(env string, cond ssa.Value, l Lit) (string, bool) {
-		if st := w.isStable(l.Atom); st || pureCond(cond, 0) {
-			tag := "\x00"
-			if st {
-				tag = "\x01"
-			}
-			yes, no := tag+l.Atom+"=T\x02", tag+l.Atom+"=F\x02"
-			mine, other := yes, no
-			if !l.Pos {
-				mine, other = no, yes
-			}
-			if strings.Contains(env, other) {
-				return env, false
-			}
-			if !strings.Contains(env, mine) {
-				env += mine
-			}
-		}
-		return env, true
-	}
-	// phiEdge resolves a phi defined in block b against the incoming edge
-	phiEdge := func(v ssa.Value, b *ssa.BasicBlock, st wstate) ssa.Value {
-		if ph, ok := v.(*ssa.Phi); ok && ph.Block() == b && st.pred >= 0 && st.pred < len(ph.Edges) && st.from == 0 {
-			return ph.Edges[st.pred]
-		}
-		return v
-	}
-	for qi := 0; qi < len(items); qi++ {
-		it := items[qi]
-		b := it.st.b
-		fr := it.st.fr
-		bind(fr)
-		stopped, clobbered := false, false
-		for i := it.st.from; i < len(b.Instrs); i++ {
-			ins := b.Instrs[i]
-			if _, ok := ins.(*ssa.Phi); ok {
-				continue
-			}
-			ret, isRet := ins.(*ssa.Return)
-			// the return of an inlined new helper continues after the call
-			if isRet && !(fr != nil && fr.tail) && (fr != nil || isNewHelper(b.Parent())) {
-				if fr != nil {
-					cont := after(fr.call)
-					env := stableOnly(it.st.env)
-					// G4: every result of the return taken, through result slots
-					for ri := range ret.Results {
-						rv := retVal(ret, ri)
-						if rv == ret.Results[ri] {
-							rv = phiEdge(rv, b, it.st)
-						}
-						env = record(env, fr.call, ri, rv)
-					}
-					push(cont.B, -1, cont.I, qi, nil, env, fr.parent)
-				} else {
-					for _, site := range helperIdx[b.Parent()].sites {
-						cont := after(site)
-						push(cont.B, -1, cont.I, qi, nil, stableOnly(it.st.env), nil)
-					}
-				}
-				stopped = true
-				break
-			}
-			// a return of the walked function (or of a tail-called helper) with a
-			// non-constant boolean result: one visit per outcome
-			if isRet && w.Visit != nil {
-				if k := boolResultIndex(b.Parent()); k >= 0 && k < len(ret.Results) {
-					v := phiEdge(retVal(ret, k), b, it.st)
-					if _, isConst := constBool(v); !isConst {
-						for _, outcome := range []bool{true, false} {
-							l := litOf(v, outcome)
-							if w.Edge != nil && !w.Edge(l) {
-								continue
-							}
-							if _, ok := edgeEnv(it.st.env, v, l); !ok {
-								continue
-							}
-							curRet.r, curRet.idx, curRet.outcome = ret, k, outcome
-							res := w.Visit(ins)
-							curRet.r = nil
-							if res == wHit {
-								return mkWitness(qi, ins, &l)
-							}
-						}
-						stopped = true
-						break
-					} else if v != retVal(ret, k) {
-						// constant selected by the incoming edge of a phi
-						cv, _ := constBool(v)
-						curRet.r, curRet.idx, curRet.outcome, curRet.konst = ret, k, cv, true
-						res := w.Visit(ins)
-						curRet.r, curRet.konst = nil, false
-						if res == wHit {
-							return mkWitness(qi, ins, nil)
-						}
-						stopped = true
-						break
-					}
-				}
-			}
-			if w.Visit != nil {
-				switch w.Visit(ins) {
-				case wHit:
-					return mkWitness(qi, ins, nil)
-				case wStop:
-					stopped = true
-				}
-			}
-			if stopped || isRet {
-				stopped = true
-				break
-			}
-			if h := newHelperCallee(ins); h != nil && (fr == nil || fr.depth < 4) && !inFrames(fr, h) {
-				// facts do not cross the frame boundary: the same helper may run twice with different arguments
-				env := it.st.env
-				if clobbered {
-					env = stableOnly(env)
-				}
-				push(h.Blocks[0], -1, 0, qi, nil, stableOnly(env), enter(ins.(*ssa.Call), fr))
-				stopped = true // the walk continues inside the helper
-				break
-			}
-			if clobbers(ins) {
-				clobbered = true
-			}
-		}
-		if stopped || len(b.Instrs) == 0 {
-			continue
-		}
-		if clobbered {
-			it.st.env = stableOnly(it.st.env)
-		}
-		predIdx := func(s *ssa.BasicBlock) int {
-			for k, p := range s.Preds {
-				if p == b {
-					return k
-				}
-			}
-			return -1
-		}
-		last := b.Instrs[len(b.Instrs)-1]
-		if ifi, ok := last.(*ssa.If); ok {
-			cond := ifi.Cond
-			// resolve a phi defined in this block against the incoming edge
-			cond = phiEdge(cond, b, it.st)
-			if un, ok := cond.(*ssa.UnOp); ok && un.Op == token.NOT {
-				if ph, ok := un.X.(*ssa.Phi); ok && ph.Block() == b && it.st.pred >= 0 && it.st.pred < len(ph.Edges) && it.st.from == 0 {
-					if c, ok := ph.Edges[it.st.pred].(*ssa.Const); ok && c.Value != nil && c.Value.Kind() == constant.Bool {
-						cond = ssa.NewConst(constant.MakeBool(!constant.BoolVal(c.Value)), c.Type())
-					}
-				}
-			}
-			// a condition that is the result of an inlined helper call: the value it returned on this path
-			flip := false
-			var resolvedFor *ssa.Call
-			{
-				base, neg := cond, false
-				for {
-					un, ok := base.(*ssa.UnOp)
-					if !ok || un.Op != token.NOT {
-						break
-					}
-					base, neg = un.X, !neg
-				}
-				if cl, ok := base.(*ssa.Call); ok && newHelperCallee(cl) != nil {
-					if v := lookup(it.st.env, cl, 0); v != nil {
-						cond, flip, resolvedFor = v, neg, cl
-					}
-				}
-				// G4: result #i of an inlined helper call
-				if ex, ok := base.(*ssa.Extract); ok {
-					if cl, ok := ex.Tuple.(*ssa.Call); ok && newHelperCallee(cl) != nil {
-						if v := lookup(it.st.env, cl, ex.Index); v != nil {
-							cond, flip, resolvedFor = v, neg, cl
-						}
-					}
-				}
-				// G4: comparison of such a result with a constant, when the value
-				// returned on this path is a constant too (x, nil / 0, false ...)
-				if bo, ok := base.(*ssa.BinOp); ok && (bo.Op == token.EQL || bo.Op == token.NEQ) {
-					resolveOp := func(v ssa.Value) ssa.Value {
-						switch x := v.(type) {
-						case *ssa.Extract:
-							if cl, ok := x.Tuple.(*ssa.Call); ok && newHelperCallee(cl) != nil {
-								if r := lookup(it.st.env, cl, x.Index); r != nil {
-									return r
-								}
-							}
-						case *ssa.Call:
-							if newHelperCallee(x) != nil {
-								if r := lookup(it.st.env, x, 0); r != nil {
-									return r
-								}
-							}
-						}
-						return v
-					}
-					x, y := resolveOp(bo.X), resolveOp(bo.Y)
-					cx, okx := x.(*ssa.Const)
-					cy, oky := y.(*ssa.Const)
-					if okx && oky && (x != bo.X || y != bo.Y) {
-						eq, known := false, false
-						switch {
-						case cx.Value == nil && cy.Value == nil:
-							eq, known = true, true // nil == nil (zero values of the same type)
-						case cx.Value != nil && cy.Value != nil:
-							eq, known = constant.Compare(cx.Value, token.EQL, cy.Value), true
-						}
-						if known {
-							val := eq == (bo.Op == token.EQL)
-							cond, flip, resolvedFor = ssa.NewConst(constant.MakeBool(val), bo.Type()), neg, nil
-						}
-					}
-				}
-			}
-			for k, s := range b.Succs {
-				outcome := (k == 0) != flip
-				if c, ok := cond.(*ssa.Const); ok && c.Value != nil && c.Value.Kind() == constant.Bool {
-					if constant.BoolVal(c.Value) != outcome {
-						continue // infeasible
-					}
-					push(s, predIdx(s), 0, qi, nil, it.st.env, fr)
-					continue
-				}
-				var l Lit
-				if resolvedFor != nil {
-					h := resolvedFor.Call.StaticCallee()
-					prev, had := descBind[h]
-					descBind[h] = resolvedFor
-					l = litOf(cond, outcome)
-					if had {
-						descBind[h] = prev
-					} else {
-						delete(descBind, h)
-					}
-				} else {
-					l = litOf(cond, outcome)
-				}
-				if w.Edge != nil && !w.Edge(l) {
-					continue
-				}
-				env := it.st.env
-				if s.Dominates(b) {
-					env = loopReset(env) // loop back edge: values are redefined
-				}
-				if resolvedFor == nil {
-					var ok bool
-					if env, ok = edgeEnv(env, cond, l); !ok {
-						continue // contradicts an earlier test of the same atom
-					}
-				}
-				push(s, predIdx(s), 0, qi, &l, env, fr)
-			}
-			continue
-		}
-		for _, s := range b.Succs {
-			env := it.st.env
-			if s.Dominates(b) {
-				env = loopReset(env)
-			}
-			push(s, predIdx(s), 0, qi, nil, env, fr)
-		}
-	}
-	return nil
-}
+func (w *Walker) RunG4(start Point) *Witness { return w.Run(start) }
 
 // mustPassPredWalkG4 is mustPassPred (helpers_C.go) on RunG4.
 func mustPassPredWalkG4(fn *ssa.Function, t target, blocks func(Lit) bool) *Witness {
